@@ -27,7 +27,7 @@ func reg(c PropCfg) PropCfg { cfgs[c.ID] = c; return c }
 var cfgC02 = reg(PropCfg{
 	ID: "C02",
 	Profile: &Profile{Weights: mixedWeights(), PBulk: 14, MinBlocks: 8, MaxBlocks: 40, MaxTxs: 4, MaxOps: 3, PUpper: 5, PActor: 8, PNamed: 2, PFault: 4, PExec: 8,
-		PGovParams: 6, PBadRef: 5, Vesting: true, TinyLimits: true, ValidParams: true, LongTime: true},
+		PGovParams: 6, PBadRef: 5, Vesting: true, TinyLimits: true, ValidParams: true, LongTime: true, EntDenomChange: true},
 	Rule: "history (generated genesis + blocks of signed txs) with >=1 block in which an order completes and >=1 successful non-enterprise tx in a block without completion; distinct by scenario hash",
 	NonTrivial: func(w *World) bool {
 		return w.Classes["c02.block-with-completion"] > 0 && w.Classes["c02.nonent-ok-in-block-without-completion"] > 0
@@ -51,7 +51,7 @@ var cfgC03 = reg(PropCfg{
 var cfgC04 = reg(PropCfg{
 	ID: "C04",
 	Profile: &Profile{Weights: mixedWeights(), PBulk: 8, LockedActors: true, MultiPct: 20, PGranter: 12, PFeePayer: 8, MinBlocks: 8, MaxBlocks: 40, MaxTxs: 4, MaxOps: 3, PUpper: 5, PActor: 10, PNamed: 2, PFault: 5, PExec: 6,
-		PGovParams: 0, PBadRef: 5, Vesting: true, TinyLimits: true, ValidParams: true, FeeModes: []int{FeeExact, FeeExact, FeeExact, FeeLower, FeeHigher, FeeNone}},
+		PGovParams: 0, PBadRef: 5, Vesting: true, TinyLimits: true, ValidParams: true, FeeModes: []int{FeeExact, FeeExact, FeeExact, FeeLower, FeeHigher, FeeNone, FeeExactPlusExtraDenom, FeeExactPlusExtraDenom}},
 	Rule: "history with >=1 completion and >=1 partial unlock (0 < fee < locked) or a failed fee-paying tx of a locked payer",
 	NonTrivial: func(w *World) bool {
 		return w.Classes["c04.account-with-completed-order"] > 0 && (w.Classes["c04.partial-unlock"] > 0 || w.Classes["c04.failed-tx-locked-payer"] > 0)
@@ -76,7 +76,7 @@ func regWeights() map[string]int {
 }
 
 func regProfile() *Profile {
-	return &Profile{Weights: regWeights(), PSameKind: 30, PForward: 50, PRetry: 6, PCheck: 7, GasSweep: true, MultiPct: 18, PBulk: 8, MinBlocks: 6, MaxBlocks: 30, MaxTxs: 5, MaxOps: 3, PUpper: 8, PActor: 10, PNamed: 2, PFault: 2, PExec: 10,
+	return &Profile{Weights: regWeights(), PSameKind: 30, PForward: 50, PRetry: 6, PCheck: 7, GasSweep: true, MultiPct: 18, PExecTail: 12, PBulk: 8, MinBlocks: 6, MaxBlocks: 30, MaxTxs: 5, MaxOps: 3, PUpper: 8, PActor: 10, PNamed: 2, PFault: 2, PExec: 10,
 		PGovParams: 7, PBadRef: 5, TinyLimits: true, ValidParams: true, GovKinds: []string{ParamsWrk, ParamsBcn}}
 }
 
@@ -118,9 +118,9 @@ var cfgC09 = reg(PropCfg{
 
 var cfgC06 = reg(PropCfg{
 	ID: "C06",
-	Profile: &Profile{Weights: map[string]int{WrkReg: 12, WrkRec: 22, WrkPur: 12, BcnReg: 10, BcnRec: 18, BcnPur: 10, BankSend: 6, EntRaise: 4, EntDecide: 8, StrCreate: 2},
+	Profile: &Profile{Weights: map[string]int{WrkReg: 12, WrkRec: 22, WrkPur: 12, BcnReg: 10, BcnRec: 18, BcnPur: 10, BankSend: 6, EntRaise: 8, EntDecide: 14, StrCreate: 2},
 		MinBlocks: 6, MaxBlocks: 25, MaxTxs: 6, MaxOps: 4, PUpper: 3, PActor: 4, PNamed: 1, PFault: 3, PExec: 12, PGovParams: 8, PBadRef: 3, TinyLimits: false,
-		ValidParams: true, GovKinds: []string{ParamsWrk, ParamsBcn}, PCheck: 60,
+		ValidParams: true, GovKinds: []string{ParamsWrk, ParamsBcn}, PCheck: 60, LockedActors: true,
 		FeeModes: []int{FeeExact, FeeExact, FeeExact, FeeNone, FeeLower, FeeHigher, FeeExactPlusExtraDenom, FeeOnlyExtraDenom, FeeLowerPlusExtraDenom, FeeHigherPlusExtraDenom, FeeFirstModuleOnly, FeeSubset, FeeSubset}, MultiPct: 30, PSameKind: 50, PFeePayer: 8},
 	Rule: "history containing >=1 CheckTx of a tx with >=1 WRKChain/BEACON operation and valid signature/sequence (reaches the fee decorators); distinct by scenario hash",
 	NonTrivial: func(w *World) bool { return w.Classes["c06.feeop-tx-reaching-fee-checks"] > 0 },
@@ -177,7 +177,7 @@ func TestC17(t *testing.T) { RunProperty(t, cfgC17) }
 var cfgC14 = reg(PropCfg{
 	ID: "C14",
 	Profile: &Profile{Weights: mixedWeights(), MinBlocks: 8, MaxBlocks: 40, MaxTxs: 4, MaxOps: 4, PUpper: 6, PActor: 8, PNamed: 2, PFault: 4, PExec: 8,
-		PGovParams: 14, GovKinds: []string{ParamsEnt, ParamsEnt, ParamsWrk, ParamsBcn, ParamsStr}, PBadRef: 5, Vesting: true, TinyLimits: true, BigAmounts: true, EntDenomChange: true, LongTime: true, GasSweep: true, MultiPct: 35, PGranter: 10, PFeePayer: 6},
+		PGovParams: 14, GovKinds: []string{ParamsEnt, ParamsEnt, ParamsWrk, ParamsBcn, ParamsStr}, PBadRef: 5, Vesting: true, TinyLimits: true, BigAmounts: true, EntDenomChange: true, LongTime: true, GasSweep: true, MultiPct: 35, PGranter: 10, PFeePayer: 6, PExecTail: 8},
 	Rule: "history with a failed multi-message tx whose first message was viable alone, or enterprise parameters changed while an order was queued",
 	NonTrivial: func(w *World) bool {
 		return w.Classes["c14.failed-multi-message-tx-first-op-viable"] > 0 || w.Classes["c14.ent-params-changed-with-order-queued"] > 0
@@ -192,7 +192,7 @@ var cfgC13 = reg(PropCfg{
 	Profile: &Profile{Weights: map[string]int{EntRaise: 8, EntDecide: 12, EntWL: 6, WrkReg: 5, WrkRec: 9, WrkPur: 4, BcnReg: 5, BcnRec: 8, BcnPur: 4,
 		StrCreate: 8, StrClaim: 8, StrTopUp: 4, StrUpdate: 4, StrCancel: 4, ParamsEnt: 2, ParamsWrk: 2, ParamsBcn: 2, ParamsStr: 2, BankSend: 2, FeeGrantOp: 3},
 		MinBlocks: 8, MaxBlocks: 35, MaxTxs: 5, MaxOps: 2, PUpper: 8, PActor: 30, PNamed: 12, PFault: 6, PExec: 14, PGovParams: 6, PBadRef: 3,
-		TinyLimits: true, MultiPct: 10, PFeePayer: 5, PForward: 40, PRetry: 5, PGranter: 12},
+		TinyLimits: true, MultiPct: 10, PFeePayer: 5, PForward: 40, PRetry: 5, PGranter: 12, PExecTail: 10},
 	Rule: "history containing >=1 attempt by an unentitled party on a live target (the same message would be meaningful for the entitled party); distinct by scenario hash",
 	NonTrivial: func(w *World) bool { return w.Classes["c13.attempt-on-live-target"] > 0 },
 	MinClasses: map[string]int{"c13.attempt-on-live-target": 200, "c13.entitled-control-ok": 500, "c13.attempt.exec-without-grant": 20, "c13.attempt.names-other-account": 20, "c13.control-via-grant": 3},
@@ -246,7 +246,7 @@ func c01Weights() map[string]int {
 var cfgC01 = reg(PropCfg{
 	ID: "C01",
 	Profile: &Profile{Weights: c01Weights(), SlotRules: []int{0, 0, 0, 1, 2, 2, 2, 3, 5}, MinBlocks: 3, MaxBlocks: 22, MaxTxs: 5, MaxOps: 3, PUpper: 6, PActor: 8, PNamed: 2, PFault: 5, PExec: 8,
-		PGovParams: 8, PBadRef: 5, Vesting: true, TinyLimits: true, BigAmounts: true, LongTime: true, GasSweep: true, MultiPct: 25, PSameKind: 35, PCheck: 8, Crashes: true, EntDenomChange: false, PFeePayer: 4, PGranter: 4, PForward: 40, PRetry: 3},
+		PGovParams: 8, PBadRef: 5, Vesting: true, TinyLimits: true, BigAmounts: true, LongTime: true, GasSweep: true, MultiPct: 25, PSameKind: 35, PCheck: 8, Crashes: true, EntDenomChange: false, PFeePayer: 4, PGranter: 4, PForward: 40, PRetry: 3, PExecTail: 8},
 	Rule: "history with >=1 successful custom-module tx and >=1 failed tx, executed on a second node that differs in node-local options and/or is restarted inside a block that already delivered a tx",
 	PerCase: c01PerCase,
 	MinClasses: map[string]int{"c01.restarts": 50, "c01.restarts-after-tx": 10, "c01.ok-custom-tx": 300, "c01.failed-tx": 200},
